@@ -6,7 +6,7 @@ import jsonfam
 import verif
 from verif import Infra, log
 
-APIS = ["oj.Parse", "oj.ParseReader", "oj.Validate1", "oj.Tokenize1", "gen.Parse"]
+APIS = ["oj.Parse", "oj.ParseReader", "oj.Validate1", "oj.Tokenize1", "gen.Parse", "oj.Unmarshal", "oj.ParseString"]
 
 
 def judge(ctx, cases):
